@@ -15,10 +15,10 @@ _T = "TornadoModel.C36."
 THEOREMS = [_T + n for n in [
     "chain_b_stable", "chain_copies", "chain_never_pending", "chain_only_from_source",
     "multi_finish_spec", "multi_last_callback", "multi_out_stable",
-    "timeout_res_stable", "waititer_refuted",
+    "timeout_res_stable", "with_timeout_before", "with_timeout_after", "with_timeout_no_deadline",
+    "waititer_refuted",
 ]]
-GOALS = ["multi_settles_goal", "multi_outcome_goal", "multi_not_early_goal", "with_timeout_before_goal",
-         "with_timeout_after_goal", "with_timeout_no_deadline_goal", "waititer_partial_goal"]   # tie only
+GOALS = ["multi_settles_goal", "multi_outcome_goal", "multi_not_early_goal", "waititer_partial_goal"]   # tie only
 TRUSTED = [
     "asyncio.Future / event loop abstraction of C36/Model.lean: settled futures never change; done-callbacks are "
     "call_soon'ed in registration order when the future settles and run on a later iteration; one iteration runs "
@@ -48,11 +48,12 @@ CLAUSES = {
     "WaitIterator yields every input exactly once in completion order with the matching index":
         "tie only (waititer_partial_goal); false for duplicate arguments: waititer_refuted (known finding)",
     "with_timeout settles with the input's outcome if it finishes before the deadline and with TimeoutError otherwise":
-        "timeout_res_stable; tie only (all op sequences up to length 5): with_timeout_before/after/no_deadline_goal",
+        "with_timeout_before + with_timeout_after + with_timeout_no_deadline + timeout_res_stable",
     "a chained future copies its source's outcome, including cancellation, unless already done":
         "chain_copies + chain_b_stable + chain_only_from_source",
     "none is left pending forever once its inputs are done":
-        "chain_never_pending; multi / with_timeout / WaitIterator: tie only",
+        "chain_never_pending; with_timeout_before/after/no_deadline (result settled in every case); "
+        "multi / WaitIterator: tie only",
 }
 PARALLEL = False   # a case costs ~0.2 ms; forking workers is slower than running them in-process
 CASE_TIMEOUT = 20
